@@ -55,10 +55,14 @@ META = {
         "insertion, and their keys are not computed relative to state that the same code swaps for the nested render, nor "
         "reduced to a file name. "
         "R5 result fields: the fields of DirectiveParsingResult reach the directive constructor, the include mock and "
-        "parse_directive_block under the matching keyword/position. "
+        "parse_directive_block under the matching keyword/position; the construction sites are followed into helpers that "
+        "receive the parsing result (parameter names substituted, two levels). "
         "R6 text conservation: on every data-flow path from the inserted text (directive content, block handed to nested_parse / "
         "inliner.parse, text read for an include, value rendered by the substitution template) to the nested parse no "
-        "character-changing operation (strip family, expandtabs, replace, dedent, escape, re.sub ...) is applied - uses whose "
+        "character-changing operation (strip family, expandtabs, replace, dedent, escape, re.sub ...) is applied - followed "
+        "through package helpers the text passes through (parameters bound to the carrying arguments; tuple elements, record "
+        "fields and `return helper(...)` delegation tracked individually, so that e.g. dedent() of the option block does not "
+        "count against the body) - uses whose "
         "result is only tested are ignored - and the Jinja environment used for substitutions (built in the function, a helper or "
         "an instance attribute) has no autoescape/finalize. "
         "R7 rule lookups: a test '<rule>' in md.get_active_rules()[<chain>] names a rule that markdown-it or a configured plugin "
@@ -69,7 +73,7 @@ META = {
         "reference definitions ([foo]: url) first met during a nested parse are registered in md_env after markdown-it has "
         "finished the inline pass of the outer document, so they are usable only from text nested-parsed later, never from "
         "top-level text. The option-block syntax makes bodies that start with ':' or '---' ambiguous. Not modelled: text "
-        "transformations hidden inside helper functions or third-party directives, slicing that drops characters (it cannot be "
+        "transformations hidden in helpers more than two calls deep or in third-party directives, slicing that drops characters (it cannot be "
         "told from the start/end options of include), lossy marker keys other than relpath/relative_to/basename/.name/.stem, "
         "exceptions raised by statements outside a try (the CFG has exception edges only inside try bodies), `{eval-rst}` being "
         "dispatched by the back-tick fence only (its body is rST, outside the property's wrappers)."
@@ -1855,7 +1859,11 @@ def _root_name(e: ast.AST) -> str | None:
 def _bindings(fi: FunctionInfo) -> list[tuple[set[str], ast.AST]]:
     """(bound names, value expression) for every binding construct of the function, including
     comprehension variables and container mutators (``xs.append(v)`` binds ``xs`` from ``v``)."""
+    cached = fi.__dict__.get("_c06_bindings")
+    if cached is not None:
+        return cached
     out: list[tuple[set[str], ast.AST]] = []
+    fi.__dict__["_c06_bindings"] = out
     for n in fi.local_nodes():
         if isinstance(n, ast.Assign):
             out.append(({x.id for t in n.targets for x in ast.walk(t) if isinstance(x, ast.Name)}, n.value))
